@@ -4,12 +4,15 @@ A solution is an indexed container (vf/qvc/solth.py) with values all in {0, 1} (
 (spin form) - the property's "given in boolean or spin form".  is_solution_spin decides the form (an all-ones
 solution is ambiguous: the `spin` hint decides, as documented); the helpers map the values through the fixed
 correspondence 0 <-> 1, 1 <-> -1; convert_solution then returns the dict  label -> value  over the model's
-variables:  result[reverse_mapping[i]] == value of index i in the model's own domain, for every i below
-num_binary_variables, and nothing else.  With x := result this is x[l] = s[mapping[l]], the `maplinked` relation
+variables:  result[reverse_mapping[i]] == value of index i in the model's own domain, for every integer i the mapping uses,
+and nothing else.  With x := result this is x[l] = s[mapping[l]], the `maplinked` relation
 under which the enumeration contracts (contracts/relabel.py) give  M.value(x) == enumerated.value(s).
 
-Precondition on the model: reverse_mapping and mapping are mutually inverse on range(num_binary_variables) - the
-C14 bookkeeping invariant."""
+Precondition on the model: mapping is the inverse of reverse_mapping on the integers the latter uses (injective
+enumeration - a consequence of the C14 invariants bk and mapinv for an automatically built mapping, and true of a
+mapping declared with set_mapping, gaps included), and the solution has an entry for every such integer.
+After the repair bc846f0 the result is built from the items of the reverse mapping (it used to run over
+range(num_binary_variables) and raised KeyError for a declared mapping with gaps)."""
 from vf.qvc.contracts import contract
 
 SOLS = ["sol:dict", "sol:list", "sol:tuple"]
@@ -44,16 +47,20 @@ _RMAP_OK = ("forall_idx(%s, lambda i: has_key(self._reverse_mapping, i) and "
             "label_at(self._mapping, map_at(self._reverse_mapping, i)) == i)" % _N)
 # the C14 invariants: counter = number of mapped labels = next label (bk), mapping / reverse mapping mutually inverse
 # enumerations of 0 .. next_label - 1 (mapinv) - both proved for construction, item assignment, += -= and update
-_REQ = [FORM.format("solution"), "sol_len(solution) >= %s" % _N, "bk(self)", "mapinv(self)"]
+# the solution covers every integer the mapping uses; the mapping is injective (a declared mapping may have gaps)
+_COVERS = "forall_mapped(self._reverse_mapping, lambda i: 0 <= i and i < sol_len(solution))"
+_INJ = ("forall_mapped(self._reverse_mapping, lambda i: has_key(self._mapping, map_at(self._reverse_mapping, i)) and "
+        "label_at(self._mapping, map_at(self._reverse_mapping, i)) == i)")
+_REQ = [FORM.format("solution"), _COVERS, _INJ]
 
 
 def _conv(qn, classes, value_expr):
     contract(qn, props=["C04", "C19"],
              instances=[{"self": "model:" + c, "solution": s, "spin": "bool"} for c in classes for s in SOLS],
              requires=_REQ, returns="valmap",
-             ensures=["forall_idx(%s, lambda i: has_key(result, map_at(self._reverse_mapping, i)) and "
-                      "label_at(result, map_at(self._reverse_mapping, i)) == (%s))" % (_N, value_expr),
-                      "only_images(result, self._reverse_mapping, %s)" % _N, "isfresh(result)"])
+             ensures=["forall_mapped(self._reverse_mapping, lambda i: has_key(result, map_at(self._reverse_mapping, i)) and "
+                      "label_at(result, map_at(self._reverse_mapping, i)) == (%s))" % value_expr,
+                      "only_images_of(result, self._reverse_mapping)", "isfresh(result)"])
 
 
 _B = "((1 - sol_at(solution, i)) / 2 if %s else sol_at(solution, i))" % ISSPIN.format("solution", "spin")
